@@ -182,6 +182,9 @@ mod tx;
 #[cfg(not(target_arch = "wasm32"))]
 pub mod validated_workspace_patch;
 mod warp_state;
+/// Verification-only hooks (feature `echo_verif`); see module docs.
+#[cfg(feature = "echo_verif")]
+pub mod verif_hooks;
 mod witness;
 mod witnessed_suffix;
 #[cfg(test)]
